@@ -611,6 +611,73 @@ def run_check(tier, seed):
                 if rc != 0 or begin is None or bad_cells or raw_bad:
                     prop_fail.append(('C18:nbwide:wrong-or-missing', 'interleaving nonblocking column requests (%s) on rows %d bytes apart: rc=%s, elements %s ; raw bytes %s'
                                       % (direction, rstride * ncol * xsz, rc, bad_cells[:3], raw_bad[:3]), desc))
+        # ---------------- stream aggwide: the same far-apart accesses through the intra-node aggregation path (2 ranks, one
+        # aggregator): the aggregator sorts (offset, length, buffer) triples of both ranks with its own quicksort and merges them;
+        # ranks write rows 2 GiB / 4 GiB apart in ONE collective call (blocking put_vara_all, and iput + wait_all)
+        n_agg = 0
+        for (fmtw, rows, ncol, far, xt, mt, xsz) in ((5, 2**20 + 2**19 + 8, 1024, 2**20, 'int', 'int', 4), (5, 2**20 + 8, 1024, 2**19, 'int', 'int', 4),
+                                                      (2, 2**21 + 8, 256, 2**21, 'int', 'int', 4)):
+            for kind in ('put', 'iput'):
+                name = 'c18agg_%d.nc' % n_agg
+                L = ['1 * create %s %d clobber nc_num_aggrs_per_node=1' % (name, fmtw), '2 * def_dim r %d' % rows, '3 * def_dim c %d' % ncol,
+                     '4 * def_var pad int 1 c', '5 * def_var v %s 2 r c' % xt, '6 * enddef', '7 * inq_varoffset v']
+                # rank 0: two near rows (0 and 1); rank 1: the far row and its neighbour -> pieces >= 2^31 bytes apart in one call
+                rowsets = {0: [0, 1], 1: [far, far + 1]}
+                vals, cells = {}, []
+                val = 1
+                st = 8
+                for j in range(2):
+                    for r in (0, 1):
+                        row = rowsets[r][j]
+                        vv = []
+                        for c in range(4):
+                            vals[(row, c)] = val; cells.append((row, c)); vv.append(val); val += 1
+                        if kind == 'put':
+                            L.append('%d %d put vara c v %s c %d,0 1,4 - - : %s' % (st, r, mt, row, ' '.join(map(str, vv))))
+                        else:
+                            L.append('%d %d iput q%d_%d vara v %s c %d,0 1,4 - - : %s' % (st, r, j, r, mt, row, ' '.join(map(str, vv))))
+                    st += 1
+                if kind == 'iput':
+                    L.append('%d * waitall c ALL' % st); st += 1
+                L.append('%d * sync' % st); st += 1
+                L.append('%d * barrier' % st); st += 1
+                g0 = st
+                for (r, c) in cells:
+                    L.append('%d * get var1 c v %s c %d,%d - - -' % (st, mt, r, c)); st += 1
+                L.append('%d * close' % st)
+                script = os.path.join(wd, 'agg_%d.txt' % os.getpid())
+                open(script, 'w').write('\n'.join(L) + '\n')
+                rc, impl, err = apicmp.run_impl(bexe, script, 2, wd, timeout=300, alarm=120)
+                n_agg += 1
+                desc = dict(stream='aggwide', script='\n'.join(L), rc=rc, out=[l[:200] for l in impl[-12:]])
+                begin, got = None, {}
+                for l in impl:
+                    t = l.split()
+                    if t[0] == '7' and t[1] == '0':
+                        begin = int(t[4])
+                    if t[1] == '0' and t[2] == 'get' and g0 <= int(t[0]) < g0 + len(cells):
+                        got[cells[int(t[0]) - g0]] = t[-1] if t[3] == '0' else 'err' + t[3]
+                bad_cells = [(c, got.get(c), vals[c]) for c in cells if got.get(c) != str(vals[c])]
+                raw_bad = []
+                fpath = os.path.join(wd, name)
+                try:
+                    if begin is not None:
+                        with open(fpath, 'rb') as fh:
+                            for (r, c) in cells:
+                                off = begin + (r * ncol + c) * xsz
+                                fh.seek(off)
+                                bts = fh.read(xsz)
+                                if int.from_bytes(bts, 'big', signed=True) != vals[(r, c)]:
+                                    raw_bad.append((off, bts.hex(), vals[(r, c)]))
+                    os.unlink(fpath)
+                except OSError as ex:
+                    raw_bad.append(('io', str(ex), 0))
+                bump('aggwide:%s:fmt%d' % (kind, fmtw))
+                distinct.add('aggwide %d %d %s' % (rows, far, kind))
+                if rc != 0 or begin is None or bad_cells or raw_bad:
+                    prop_fail.append(('C18:aggwide:wrong-or-missing', 'collective %s of two ranks on rows %d bytes apart with intra-node aggregation: rc=%s, elements %s ; raw bytes %s'
+                                      % (kind, far * ncol * xsz, rc, bad_cells[:3], raw_bad[:3]), desc))
+        n_nbw += n_agg
         n_elem += n_blk + n_nbw
         log('[S4] blocks: %d multi-row requests across 2^31 / 2^32 inner dimensions, %d interleaved nonblocking request sets on rows >= 2 GiB apart in %.1fs' % (n_blk, n_nbw, t3.s()))
         V.cov['evaluations'] = len(dlines) + n_def + n_elem
